@@ -4,5 +4,6 @@ CONSTANTS
   MaxExtra = 2
   AttrModes <- ModesQuick
   VarNone = FALSE
+  ReqVersions <- ReqQuick
 INVARIANT SomeDeprecatedMasked
 CHECK_DEADLOCK FALSE
